@@ -123,6 +123,8 @@ _list_search(struct list_struct *head, char *s)
 static int
 _strncmpend(char *s1, char *s2, int len)
 {
+    if (len < strlen(s2))
+        return -1;
     return strncmp(s1 + len - strlen(s2), s2, strlen(s2));
 }
 
